@@ -12,7 +12,8 @@ EXPLANATION = (
     "searches or accept_unsolicited; (d) passed timers are popped every iteration and there is one rerun chain per "
     "search (shared with C12b / C19c); (e) the metrics report the sizes of exactly the six maps and of the timer heap. "
     "Decides these structural clauses, not 'proportional' as a quantity."
-    " (f) The is_for_us scan is left early only on a positive membership test, and wake-up times are armed only for records the cache kept.")
+    " (f) The is_for_us scan is left early only on a positive membership test, and wake-up times are armed only for records the cache kept."
+    " (j) stop_browse removes every record kind under the instance name. (k) The subtype reverse map is pruned on every sweep unless it is itself empty.")
 UNDECIDED = ["'proportional to what active searches need' as a quantity",
              "timer growth caused by repeated announcements of long-TTL records (two pushes per record per packet until they pass)"]
 
